@@ -600,6 +600,18 @@ impl Check for C19Check {
                 "rename" => {
                     if reply.is_ok() {
                         let nk = reply.ok.as_ref().and_then(|v| v["path"].as_str()).unwrap_or("").to_string();
+                        // an acknowledged rename must not replace a file that was there before: whatever was last
+                        // written to that file successfully would be gone without any refusal
+                        // (the path itself, as it was before the call: a renamed symlink resolves elsewhere afterwards)
+                        let target_lex = format!("{root_rel}/{nk}");
+                        if nk != key {
+                            if let Some(Ent::File(_)) = pre.get(&target_lex) {
+                                return Err(Violation::new(
+                                    "lost-update/rename-replaced-existing-file",
+                                    format!("op {opi}: rename {key:?} -> {nk:?} was acknowledged although {nk:?} existed as a file: its content was silently replaced"),
+                                ));
+                            }
+                        }
                         for (f, r) in pre_reals.clone() {
                             let suffix = if f == key { Some("") } else { under(&f, &key) };
                             let Some(suffix) = suffix else { continue };
